@@ -82,6 +82,20 @@ CHECKS["C20"] = dict(
          "ecdsa._rwlock.threading at run time (no source hook).",
     technique="TLC model checking (safety + liveness) of RWLock.tla + replay of TLC's state graph into the real lock under a controlled scheduler (S->C) + trace validation (C->S)",
     ref="3/C20")
+CHECKS["C18"] = dict(
+    text="PointThreads.tla gives every public point operation as a program of its reads/writes of the shared object's two mutable "
+         "fields (coordinate tuple, lazy multiplication table); TLC explores all interleavings for every pair of 11 operations "
+         "(+ two-operation programs, three-thread combinations) x generator/plain x scaled/unscaled x table empty/full, checks "
+         "ReadsComplete / StoredComplete / monotonic representation / termination, and broken variants (tuple written in three "
+         "steps; table published early) must violate. S->C: TLC's graph is replayed (edge cover quick, all paths thorough) on a "
+         "real shared PointJacobi under the deterministic scheduler with a context switch before every access to those fields "
+         "(class-level descriptors); access kinds must match the spec step by step (conformance), every value read is checked "
+         "complete, results are compared with sequential results. If the code's accesses deviate (DRIFT), all schedules of the "
+         "real code are explored for that combination.",
+    note="Trusted: TLC, CPython atomicity of attribute load/store and dict.copy(). Yield points are accesses to the shared "
+         "object's mutable fields, not every source line (thread-local computation between accesses commutes).",
+    technique="TLC model checking of PointThreads.tla + replay of TLC's interleavings into real objects under a controlled scheduler (S->C) with step-wise access conformance",
+    ref="3/C18")
 NOT_YET = {}
 
 
